@@ -178,6 +178,11 @@ def enumerate_ops(tree, nlev, rng, ndims, nf, full=True):
                 # in the preceding payload can still reach the header (the line read from there ends with it)
                 out.append(({"op": "line_set", "file": ch, "line": li, "text": f"FabOnDisk: {fname} {no}"}, lv,
                             True if d > 0 else None, "cellh-offset-off-header" if d > 0 else "cellh-offset-before-header"))
+            # the position recorded for another box of the same file (the FAB there names another range)
+            for t in sites:
+                if t["file"] == f and t["box"] != s["box"]:
+                    out.append(({"op": "line_set", "file": ch, "line": li, "text": f"FabOnDisk: {fname} {t['off']}"}, lv, True,
+                                "cellh-offset-of-other-box"))
             for d in (1, 5, s["hlen"] - 20):
                 if 0 < d < s["hlen"]:
                     out.append(({"op": "line_set", "file": ch, "line": li, "text": f"FabOnDisk: {fname} {s['off'] + d}"}, lv, None, "cellh-offset-inside-header"))
